@@ -7,6 +7,7 @@ import (
 	"sync/atomic"
 	"time"
 
+	"ergo.services/ergo/act"
 	"ergo.services/ergo/gen"
 
 	"verif/harness/actors"
@@ -40,6 +41,25 @@ var (
 // issueAct issues one action against a process victim and returns when the issuing call has returned
 func issueAct(v *victim, parentI *actors.Inst, act string) {
 	n := v.node
+	if i := strings.Index(act, "="); i > 0 {
+		// exit signal with a named reason
+		src, rn := act[:i], act[i+1:]
+		reason := reasonByName[rn]
+		switch src {
+		case "pexit":
+			done := v.begin(act)
+			done(askExit(n, v.parent, v.pid, reason))
+		case "fexit":
+			done := v.begin(act)
+			done(askExit(n, v.foreign, v.pid, reason))
+		case "nexit": // victim spawned by the node: the node is its parent
+			done := v.begin("pexit=" + rn)
+			done(n.SendExit(v.pid, reason))
+		default:
+			panic("unknown action " + act)
+		}
+		return
+	}
 	switch act {
 	case "kill":
 		done := v.begin("kill")
@@ -67,6 +87,11 @@ func issueAct(v *victim, parentI *actors.Inst, act string) {
 		done := v.begin("err")
 		done(n.Send(v.pid, errHandler))
 	case "panicmsg":
+		if v.tpanic && v.kind == "raw" && !inChild() {
+			// double panic (run + terminate) is examined in child processes only (see isolate.go)
+			issueAct(v, parentI, "errmsg")
+			return
+		}
 		done := v.begin("panic")
 		done(n.Send(v.pid, "panic"))
 	case "pdie":
@@ -91,9 +116,29 @@ func probeEarlyTerminate(v *victim, d time.Duration) {
 	hk.WaitUntil(d, func() bool { return v.inst.TermCount.Load() >= 1 })
 }
 
+// doublePanic: a raw victim whose ProcessRun panics and whose terminate callback panics too
+func (c pcase) doublePanic() bool {
+	if c.kind != "raw!" {
+		return false
+	}
+	if c.pos == "handler-panic" || c.pos == "term.panic" {
+		return true
+	}
+	for _, a := range c.acts {
+		if a == "panicmsg" {
+			return true
+		}
+	}
+	return false
+}
+
 func runProc(c pcase, scenario string) {
 	id := c.id()
 	if !hk.Want(id) || breakerOpen() {
+		return
+	}
+	if c.doublePanic() && !inChild() {
+		runChild(id, scenario)
 		return
 	}
 	r := &result{}
@@ -492,6 +537,33 @@ func runTable(kind, what string) {
 			}
 		}
 		done(err)
+	case "inspect-panic":
+		// HandleInspect panics; the inspecting process is a throw-away agent (it waits for its timeout)
+		insp, _, err := spawnAgent(n, id+"/inspector")
+		if err != nil {
+			r.incon = "spawn inspector"
+			break
+		}
+		cleanup = append(cleanup, insp)
+		exact = "panic"
+		done := v.begin("panic")
+		v.mustEnd.Store(true)
+		done(n.Send(insp, inspectReq{To: v.pid, Item: "panic"}))
+	case "log-err", "log-panic":
+		// the victim acts as a logger; HandleLog fails on a marked line
+		lname := fmt.Sprintf("c05log%d", tseq.Add(1))
+		if err := n.LoggerAddPID(v.pid, lname, gen.LogLevelError); err != nil {
+			r.incon = "logger add: " + err.Error()
+			break
+		}
+		exact = "err"
+		if what == "log-panic" {
+			exact = "panic"
+		}
+		done := v.begin(exact)
+		v.mustEnd.Store(true)
+		n.Log().Error("c05-" + what)
+		done(nil)
 	case "fexit3":
 		for k := 0; k < 3; k++ {
 			issueAct(v, nil, "fexit")
@@ -531,6 +603,102 @@ func runTable(kind, what string) {
 	finish(id, "table", id, false, evCount(v), r, map[string]any{"events": fmt.Sprint(v.inst.Events()), "issued": v.issues(), "ended": ended})
 }
 
+// runInit: Init fails (error / panic). The process never started: spawn reports the failure, the
+// PID is not registered, the terminate callback ran at most once and nothing ran after it.
+func runInit(kind, how string) {
+	id := fmt.Sprintf("T/%s/init-%s", kind, how)
+	if !hk.Want(id) || breakerOpen() {
+		return
+	}
+	r := &result{}
+	n := gen.Node(node)
+	parent, _, err := spawnAgent(n, id+"/parent")
+	if err != nil {
+		return
+	}
+	defer n.Kill(parent)
+	var arg any = errHandler
+	if how == "panic" {
+		arg = "init-panic"
+	}
+	var f gen.ProcessFactory
+	var inst *actors.Inst
+	switch kind {
+	case "actor":
+		f, inst = factoryFor("actor", id)
+	case "sup", "pool":
+		inst = &actors.Inst{Label: id}
+		childF := actors.NewProbeMulti(id+"/child", victimHooks(false), nil)
+		if kind == "pool" {
+			f = func() gen.ProcessBehavior {
+				return &poolProbe{I: inst, initFail: arg, opts: act.PoolOptions{PoolSize: 2, WorkerFactory: childF}}
+			}
+		} else {
+			f = func() gen.ProcessBehavior {
+				return &supProbe{I: inst, initFail: arg, spec: act.SupervisorSpec{Children: []act.SupervisorChildSpec{{Name: gen.Atom(fmt.Sprintf("c05i_%d", tseq.Add(1))), Factory: childF}}, Restart: act.SupervisorRestart{Strategy: act.SupervisorStrategyTemporary}}}
+			}
+		}
+	}
+	done := make(chan spawnRes, 1)
+	n.Send(parent, spawnChild{F: f, Opts: gen.ProcessOptions{LinkParent: true}, Args: []any{arg}, Done: done})
+	var res spawnRes
+	select {
+	case res = <-done:
+	case <-time.After(10 * time.Second):
+		r.incon = "watchdog: parent did not answer"
+	}
+	if r.incon == "" {
+		hk.WaitUntil(2*time.Second, func() bool { return !inst.InCallback() })
+		if res.Err == nil {
+			r.fail("init-failure-spawn-succeeded", "%s: Init failed (%s) but Spawn returned pid %s without error", id, how, res.PID)
+			n.Kill(res.PID)
+		}
+		if _, err := n.ProcessInfo(inst.PID); err == nil && res.Err != nil {
+			r.fail("init-failure-process-registered", "%s: Init failed (%s) yet the process %s is registered", id, how, inst.PID)
+		}
+		if tc := inst.TermCount.Load(); tc > 1 {
+			r.fail("terminate-twice", "%s: terminate callback ran %d times after a failed Init", id, tc)
+		}
+		if a := inst.AfterTerm.Load(); a > 0 {
+			r.fail("callback-after-terminate", "%s: %d callbacks began after the terminate callback", id, a)
+		}
+		for _, e := range inst.Events() {
+			if e.CB != "init" && e.CB != "terminate" {
+				r.fail("callback-after-failed-init", "%s: callback %s ran although Init failed", id, e.CB)
+			}
+		}
+	}
+	finish(id, "table", id, false, int64(len(inst.Events())), r, map[string]any{"events": fmt.Sprint(inst.Events()), "spawn_error": fmt.Sprint(res.Err)})
+}
+
+// runAlive: after everything (terminate callbacks that panic included) the node still works
+func runAlive() {
+	id := "Z/node-alive"
+	if !hk.Want(id) {
+		return
+	}
+	r := &result{}
+	n := gen.Node(node)
+	pid, inst, err := spawnAgent(n, id)
+	if err != nil {
+		r.fail("node-dead-after-run", "spawn on the node failed at the end of the run: %v", err)
+	} else {
+		p := ping{Done: make(chan struct{})}
+		n.Send(pid, p)
+		select {
+		case <-p.Done:
+		case <-time.After(10 * time.Second):
+			r.incon = "watchdog: fresh process did not answer a ping"
+		}
+		n.Kill(pid)
+	}
+	ev := int64(0)
+	if inst != nil {
+		ev = int64(len(inst.Events()))
+	}
+	finish(id, "table", id, false, ev, r, nil)
+}
+
 // ---------------------------------------------------------------------------
 // case lists
 
@@ -543,7 +711,7 @@ var sevenCauses = []string{"errmsg", "panicmsg", "kill", "kill2", "pexit", "fexi
 
 func positionsFor(kind string) []string {
 	ps := []string{"sleep", "handler", "handler-err", "handler-panic", "enter", "tosleep", "recheck", "reacquire", "term.err", "term.kill", "kill.zombie", "kill.term", "dead-kill", "dead-err"}
-	if kind == "raw" {
+	if strings.TrimSuffix(kind, "!") == "raw" {
 		ps = append(ps, "term.panic")
 	} else {
 		ps = append(ps, "call", "call-err", "term.err-panic")
@@ -586,11 +754,42 @@ func directedProcCases() []pcase {
 	return cs
 }
 
+// termPanicProcCases: the same machinery with victims whose terminate callback panics (kind suffix "!"):
+// every teardown path (runner after error / kill / panic, Kill of a sleeping process) must enter the
+// terminate callback exactly once, nothing afterwards, observers told once, node alive
+func termPanicProcCases() []pcase {
+	var cs []pcase
+	acts := [][]string{{"kill"}, {"kill2"}, {"pexit"}, {"fexit"}, {"errmsg"}, {"panicmsg"}, {"pdie"}, {"pexit=normal"}, {"fexit=shutdown"}, {"errmsg", "kill"}, {"kill", "pexit"}}
+	for _, kind := range []string{"actor!", "trap!", "raw!"} {
+		for _, pos := range positionsFor(kind) {
+			if strings.HasPrefix(pos, "dead") || pos == "recheck" || pos == "enter" {
+				continue
+			}
+			if hasOwnCause(pos) {
+				cs = append(cs, pcase{"P", kind, pos, nil})
+			}
+			for _, a := range acts {
+				cs = append(cs, pcase{"P", kind, pos, a})
+			}
+		}
+	}
+	// double panics need a child process each: keep a handful
+	keep := map[string]bool{"P/raw!/sleep/panicmsg": true, "P/raw!/handler-panic/none": true, "P/raw!/term.panic/none": true, "P/raw!/term.panic/kill": true}
+	var out []pcase
+	for _, c := range cs {
+		if c.doublePanic() && !keep[c.id()] {
+			continue
+		}
+		out = append(out, c)
+	}
+	return out
+}
+
 // randomProcCases: seeded sequences of 2..4 actions at seeded positions
 func randomProcCases(n int) []pcase {
 	rng := hk.Rng("c05", "randproc")
 	var cs []pcase
-	kinds := []string{"actor", "actor", "trap", "raw"}
+	kinds := []string{"actor", "actor", "trap", "raw", "actor!", "raw!"}
 	all := append(append([]string{}, sevenCauses...), "killpar")
 	for k := 0; k < n; k++ {
 		kind := kinds[rng.Intn(len(kinds))]
@@ -601,7 +800,11 @@ func randomProcCases(n int) []pcase {
 		for j := 0; j < m; j++ {
 			acts = append(acts, all[rng.Intn(len(all))])
 		}
-		cs = append(cs, pcase{fmt.Sprintf("R%d", k), kind, pos, acts})
+		c := pcase{fmt.Sprintf("R%d", k), kind, pos, acts}
+		if c.doublePanic() {
+			c.kind = "raw"
+		}
+		cs = append(cs, c)
 	}
 	return cs
 }
